@@ -74,7 +74,51 @@ func drawCNF(t *rapid.T, o Opts) *Policy {
 		}
 	}
 	mus = maximalOnly(mus)
-	return &Policy{Family: CNF, N: n, MUS: mus}
+	p := &Policy{Family: CNF, N: n, MUS: mus}
+	// A holder contained in EVERY maximal unqualified set is redundant (it is in no minimal
+	// qualified set); the library's CNF span programme gives such a holder no row and hence no
+	// share. Draw returns only policies in which every holder matters: redundant holders are
+	// dropped and the rest renumbered (see DropRedundantCNF).
+	return DropRedundantCNF(p)
+}
+
+// DropRedundantCNF removes the holders that occur in every maximal unqualified set of a CNF
+// policy and renumbers the remaining ones; if fewer than two holders or no unqualified set
+// would remain it returns the policy cnf({0},{1}) (= 2-of-2).
+func DropRedundantCNF(p *Policy) *Policy {
+	all := p.Full()
+	for _, u := range p.MUS {
+		all &= u
+	}
+	if all == 0 {
+		return p
+	}
+	remap := map[int]int{}
+	for i := 0; i < p.N; i++ {
+		if all&(1<<uint(i)) == 0 {
+			remap[i] = len(remap)
+		}
+	}
+	var mus []uint64
+	for _, u := range p.MUS {
+		var v uint64
+		for _, i := range Members(u &^ all) {
+			v |= 1 << uint(remap[i])
+		}
+		if v != 0 {
+			mus = append(mus, v)
+		}
+	}
+	mus = maximalOnly(mus)
+	q := &Policy{Family: CNF, N: len(remap), MUS: mus}
+	var union uint64
+	for _, u := range mus {
+		union |= u
+	}
+	if q.N < 2 || len(mus) == 0 || union != q.Full() {
+		return &Policy{Family: CNF, N: 2, MUS: []uint64{1, 2}}
+	}
+	return DropRedundantCNF(q)
 }
 
 func maximalOnly(sets []uint64) []uint64 {
